@@ -18,8 +18,16 @@
 (* (The operators are called ToJ / FromJ because ToJson is taken by the    *)
 (* community module Json that the generators use for emission.)            *)
 (*                                                                         *)
-(* JSON values are JsonValue's tagged tuples.  Typed values:               *)
+(* JSON values are JsonValue's tagged tuples, plus two number forms that    *)
+(* JsonValue does not have: <<"wide", neg, ds>> (an integer of magnitude   *)
+(* > 2147483647: sign, decimal digit code points, no leading zero - every  *)
+(* integer has exactly one representation) and <<"dec", m, e>> (the binary *)
+(* floating point number m * 10^e; only values that float represents       *)
+(* exactly are used).  Typed values:                                       *)
 (*   <<"i", n>>  integer kinds and durations     <<"b", x>>   bool         *)
+(*   <<"iw", neg, ds>> an integer whose magnitude exceeds 2147483647 (TLC's *)
+(*                integers are 32 bit): sign and decimal digits             *)
+(*   <<"f", m, e>>  float / double with the value m * 10^e                  *)
 (*   <<"s", cps>> string                         <<"en", k>>  k-th enumerator *)
 (*   <<"seq", <<v..>>>>  sequence containers, std::array                   *)
 (*   <<"map", f>>   map<string,T> (f: key code points -> value)            *)
@@ -36,7 +44,8 @@ EXTENDS JsonValue, Integers
 
 (***************************** type algebra *******************************)
 \* integer kinds: the C++ type decides the range ([IS] "integral and within the range of")
-TInt(kind) == <<"int", kind>>          \* kind in {"i32","u32","u8","i8"}
+TInt(kind) == <<"int", kind>>          \* kind in {"i8","u8","i16","u16","i32","u32","i64","u64"}
+TFlt(kind) == <<"flt", kind>>          \* kind in {"f32","f64"}: float, double
 TBool == <<"bool">>
 TStr == <<"str">>
 TVec(T) == <<"vec", T>>                \* vector / list / deque  [BI sequence containers]
@@ -53,16 +62,12 @@ TEnum(names) == <<"enum", names>>      \* JSONCONS_ENUM_TRAITS / ENUM_NAME_TRAIT
 \* non-mandatory member is absent ("the rest can have default values" [GEN (1)..(26)])
 Mem(n, T, mand, dflt) == [n |-> n, t |-> T, m |-> mand, d |-> dflt]
 \* fam names the macro family that declares the traits: "member" (N_/ALL_MEMBER[_NAME], TPL_ variants), "ctor"
-\* (N_/ALL_CTOR_GETTER[_NAME]), "getset" (N_/ALL_GETTER_SETTER[_NAME]); the documented behaviour is the same for all three
+\* (N_/ALL_CTOR_GETTER[_NAME]), "getset" (N_/ALL_GETTER_SETTER, ALL_GETTER_SETTER_NAME), "getsetn" (N_GETTER_SETTER_NAME);
+\* the documented behaviour is the same for all of them
 TStruct(fam, ms) == <<"struct", ms, fam>>
 TPoly(Ss) == <<"poly", Ss>>            \* JSONCONS_POLYMORPHIC_TRAITS(base, derived...) [GEN (27), A4]
 TBits(n) == <<"bits", n>>              \* std::bitset<n>         [BI bitset]
 TSecs == <<"secs">>                    \* std::chrono::seconds   [BI duration]
-
-InRange(kind, n) == CASE kind = "i32" -> TRUE                  \* every TLC integer fits int32_t
-                      [] kind = "u32" -> n >= 0
-                      [] kind = "u8" -> n >= 0 /\ n <= 255
-                      [] kind = "i8" -> n >= -128 /\ n <= 127
 
 (************************** decimal / hex text ****************************)
 RECURSIVE NatStr(_)
@@ -81,6 +86,54 @@ KeyAsInt(s) ==
           ELSE <<"int", IF neg THEN 0 - DigitsVal(ds, 0) ELSE DigitsVal(ds, 0)>>
      ELSE IF \E i \in 1..Len(s) : IsDigit(s[i]) THEN <<"num">> ELSE <<"no">>
 LooksNumeric(s) == \E i \in 1..Len(s) : IsDigit(s[i])
+
+(************************ integers beyond 32 bits **************************)
+JWide(neg, ds) == <<"wide", neg, ds>>
+JDec(m, e) == <<"dec", m, e>>
+\* the m * 10^e that float represents exactly, among those the generators use (0.5, -2.25, 0.0, 3.0, 1e10; 0.1 is double only - the
+\* harness cross-checks: a float built from one of these must widen to the same double)
+FloatExact(m, e) == <<m, e>> \in {<<5, -1>>, <<-225, -2>>, <<0, 0>>, <<3, 0>>, <<1, 10>>}
+IsIntJ(j) == j[1] \in {"int", "wide"}
+NegOf(j) == IF j[1] = "int" THEN j[2] < 0 ELSE j[2]
+MagOf(j) == IF j[1] = "int" THEN NatStr(IF j[2] < 0 THEN 0 - j[2] ELSE j[2]) ELSE j[3]
+\* a <= b on canonical decimal digit strings
+DLe(a, b) == Len(a) < Len(b) \/ (Len(a) = Len(b) /\ (a = b \/ \E i \in 1..Len(a) : a[i] < b[i] /\ \A h \in 1..(i - 1) : a[h] = b[h]))
+D127 == <<49, 50, 55>>  D128 == <<49, 50, 56>>  D255 == <<50, 53, 53>>  D0 == <<48>>
+D32767 == <<51, 50, 55, 54, 55>>  D32768 == <<51, 50, 55, 54, 56>>  D65535 == <<54, 53, 53, 51, 53>>
+D2p31m1 == <<50, 49, 52, 55, 52, 56, 51, 54, 52, 55>>  D2p31 == <<50, 49, 52, 55, 52, 56, 51, 54, 52, 56>>  D2p31p1 == <<50, 49, 52, 55, 52, 56, 51, 54, 52, 57>>
+D2p32m1 == <<52, 50, 57, 52, 57, 54, 55, 50, 57, 53>>  D2p32 == <<52, 50, 57, 52, 57, 54, 55, 50, 57, 54>>
+D2p63m1 == <<57, 50, 50, 51, 51, 55, 50, 48, 51, 54, 56, 53, 52, 55, 55, 53, 56, 48, 55>>
+D2p63 == <<57, 50, 50, 51, 51, 55, 50, 48, 51, 54, 56, 53, 52, 55, 55, 53, 56, 48, 56>>
+D2p63p1 == <<57, 50, 50, 51, 51, 55, 50, 48, 51, 54, 56, 53, 52, 55, 55, 53, 56, 48, 57>>
+D2p64m1 == <<49, 56, 52, 52, 54, 55, 52, 52, 48, 55, 51, 55, 48, 57, 53, 53, 49, 54, 49, 53>>
+D2p64 == <<49, 56, 52, 52, 54, 55, 52, 52, 48, 55, 51, 55, 48, 57, 53, 53, 49, 54, 49, 54>>
+\* [IS (4),(5)]: "integral and within the range of" the C++ type: largest magnitude on the positive / negative side
+PosMax(kind) == CASE kind = "i8" -> D127 [] kind = "u8" -> D255 [] kind = "i16" -> D32767 [] kind = "u16" -> D65535
+                  [] kind = "i32" -> D2p31m1 [] kind = "u32" -> D2p32m1 [] kind = "i64" -> D2p63m1 [] kind = "u64" -> D2p64m1
+NegMax(kind) == CASE kind = "i8" -> D128 [] kind = "i16" -> D32768 [] kind = "i32" -> D2p31 [] kind = "i64" -> D2p63 [] OTHER -> D0
+InRange(kind, j) == IF NegOf(j) THEN DLe(MagOf(j), NegMax(kind)) ELSE DLe(MagOf(j), PosMax(kind))
+\* the same boundaries written down a second time as JSON integers: smallest / largest value of the kind, and the
+\* nearest integers outside (MC_C17 checks that the two tables agree)
+KMin(kind) == CASE kind = "i8" -> JInt(-128) [] kind = "i16" -> JInt(-32768) [] kind = "i32" -> JWide(TRUE, D2p31)
+                [] kind = "i64" -> JWide(TRUE, D2p63) [] OTHER -> JInt(0)
+KMax(kind) == CASE kind = "i8" -> JInt(127) [] kind = "u8" -> JInt(255) [] kind = "i16" -> JInt(32767) [] kind = "u16" -> JInt(65535)
+                [] kind = "i32" -> JInt(2147483647) [] kind = "u32" -> JWide(FALSE, D2p32m1)
+                [] kind = "i64" -> JWide(FALSE, D2p63m1) [] kind = "u64" -> JWide(FALSE, D2p64m1)
+KBelow(kind) == CASE kind = "i8" -> JInt(-129) [] kind = "i16" -> JInt(-32769) [] kind = "i32" -> JWide(TRUE, D2p31p1)
+                  [] kind = "i64" -> JWide(TRUE, D2p63p1) [] OTHER -> JInt(-1)
+KAbove(kind) == CASE kind = "i8" -> JInt(128) [] kind = "u8" -> JInt(256) [] kind = "i16" -> JInt(32768) [] kind = "u16" -> JInt(65536)
+                  [] kind = "i32" -> JWide(FALSE, D2p31) [] kind = "u32" -> JWide(FALSE, D2p32)
+                  [] kind = "i64" -> JWide(FALSE, D2p63) [] kind = "u64" -> JWide(FALSE, D2p64)
+IntKinds == {"i8", "u8", "i16", "u16", "i32", "u32", "i64", "u64"}
+\* typed integer value <-> JSON integer
+IntV(j) == IF j[1] = "int" THEN <<"i", j[2]>> ELSE <<"iw", j[2], j[3]>>
+IntJ(v) == IF v[1] = "i" THEN JInt(v[2]) ELSE JWide(v[2], v[3])
+\* is every integer of the document an int64_t (BSON has no other integer type)
+RECURSIVE AllInt64(_)
+AllInt64(j) == CASE j[1] = "wide" -> InRange("i64", j)
+                 [] j[1] = "arr" -> \A i \in 1..Len(j[2]) : AllInt64(j[2][i])
+                 [] j[1] = "obj" -> \A k \in DOMAIN j[2] : AllInt64(j[2][k])
+                 [] OTHER -> TRUE
 
 HexDigit(k) == IF k < 10 THEN 48 + k ELSE 55 + k          \* upper case, as in the [BI bitset] examples
 \* [BI bitset]: bit i of the bitset is the i-th bit of the byte string counted from the most
@@ -103,7 +156,8 @@ Written(m, v) == m.m \/ ~(m.t[1] \in {"opt", "ptr"} /\ v = <<"none">>)
 StructJ(ms, vs) == LET idx == {i \in 1..Len(ms) : Written(ms[i], vs[i])}
                    IN JObj([k \in {ms[i].n : i \in idx} |-> LET i == CHOOSE i \in idx : ms[i].n = k IN ToJ(ms[i].t, vs[i])])
 ToJ(T, v) ==
-  CASE T[1] = "int" -> JInt(v[2])
+  CASE T[1] = "int" -> IntJ(v)
+    [] T[1] = "flt" -> JDec(v[2], v[3])                                                 \* a floating point number (never an integer: 3.0 stays floating point)
     [] T[1] = "bool" -> JBool(v[2])
     [] T[1] = "str" -> JStr(v[2])
     [] T[1] \in {"vec", "arr"} -> JArr([i \in 1..Len(v[2]) |-> ToJ(T[2], v[2][i])])
@@ -123,7 +177,8 @@ ToJ(T, v) ==
 (* and drives the type selection of variants and polymorphic pointers.     *)
 RECURSIVE Is(_, _)
 Is(T, j) ==
-  CASE T[1] = "int" -> j[1] = "int" /\ InRange(T[2], j[2])                 \* [IS (4),(5)]
+  CASE T[1] = "int" -> IsIntJ(j) /\ InRange(T[2], j)                        \* [IS (4),(5)]
+    [] T[1] = "flt" -> j[1] = "dec"                                          \* [IS (6)]: "floating point" (example (6): an integer is not)
     [] T[1] = "bool" -> j[1] = "bool"
     [] T[1] = "str" -> j[1] = "str"
     [] T[1] = "vec" -> IsArr(j) /\ \A i \in 1..Len(j[2]) : Is(T[2], j[2][i])           \* [IS] is<X<T>>
@@ -154,8 +209,15 @@ WithTag(tag, r) == IF r[1] = "ok" THEN Ok(<<tag, r[2]>>) ELSE r
 
 RECURSIVE FromJ(_, _)
 FirstIs(Ts, j) == CHOOSE k \in 1..Len(Ts) : Is(Ts[k], j) /\ \A h \in 1..(k - 1) : ~Is(Ts[h], j)
+\* [IS (10)]: an integer outside both int64_t and uint64_t is held by basic_json as a string tagged bigint ("is<std::string>() is
+\* true and the string holds an integer value"): which alternative of a variant claims it is not addressed
+Beyond64(j) == j[1] = "wide" /\ ~InRange("i64", j) /\ ~InRange("u64", j)
 Select(Ts, j) ==  \* [GEN A8]: "checking each type in the variant from left to right, and stopping when is(j) returns true"
-  IF \A k \in 1..Len(Ts) : ~Is(Ts[k], j) THEN Err
+  IF Beyond64(j) THEN DC
+  ELSE IF \A k \in 1..Len(Ts) : ~Is(Ts[k], j)
+       THEN (IF j[1] = "wide" /\ ~InRange("i64", j) /\ (\E k \in 1..Len(Ts) : Ts[k] = TStr)
+             THEN DC       \* an integer above INT64_MAX travels in some formats only as a high-precision number / bigint string ([IS (10)]): whether a string alternative claims it is not addressed
+             ELSE Err)
   ELSE LET k == FirstIs(Ts, j)  r == FromJ(Ts[k], j)
        IN IF r[1] = "ok" THEN Ok(<<"alt", k, r[2]>>)
           ELSE DC      \* the selected alternative cannot be read: whether the next one is tried is not addressed
@@ -168,13 +230,21 @@ StructFrom(ms, j) ==
        \* members of j that the class does not declare are not looked at ([JT] example reads by name only)
 FromJ(T, j) ==
   CASE T[1] = "int" ->
-         IF j[1] = "int" THEN (IF InRange(T[2], j[2]) THEN Ok(<<"i", j[2]>>) ELSE DC)     \* out of range: [AS] examples (2),(5) show wrap-around, [IS] says "not the same"
+         IF IsIntJ(j) THEN (IF InRange(T[2], j) THEN Ok(IntV(j)) ELSE DC)                \* out of range: [AS] examples (2),(5) show wrap-around (2147483648 -> int32_t -2147483648, -10 -> uint32_t 4294967286), [IS] says "not the same": nothing says error
+         ELSE IF j[1] = "dec" THEN DC                                                    \* [AS] example (6): 10.5 -> int32_t 10
          ELSE IF j[1] = "bool" THEN DC                                                   \* [AS] example (8): as<int>() of true
          ELSE IF j[1] = "str" /\ LooksNumeric(j[2]) THEN DC                              \* [AS] example (9): numbers held in strings convert
          ELSE Err                                                                       \* null, other strings, arrays, objects
+    [] T[1] = "flt" ->
+         IF j[1] = "dec" THEN (IF T[2] = "f32" /\ ~FloatExact(j[2], j[3]) THEN DC          \* a number that float cannot represent: rounding is not addressed
+                               ELSE Ok(<<"f", j[2], j[3]>>))
+         ELSE IF IsIntJ(j) THEN DC                                                       \* number <-> number conversions are shown by [AS] (6) only in the other direction
+         ELSE IF j[1] = "bool" THEN DC
+         ELSE IF j[1] = "str" /\ LooksNumeric(j[2]) THEN DC                              \* [AS] example (9): "10.5" -> double 10.5
+         ELSE Err                                                                       \* null, other strings, arrays, objects
     [] T[1] = "bool" ->
          IF j[1] = "bool" THEN Ok(<<"b", j[2]>>)
-         ELSE IF j[1] = "int" THEN DC                                                    \* number -> bool is not addressed
+         ELSE IF IsIntJ(j) \/ j[1] = "dec" THEN DC                                                    \* number -> bool is not addressed
          ELSE Err
     [] T[1] = "str" ->
          IF j[1] = "str" THEN Ok(<<"s", j[2]>>)
@@ -224,11 +294,11 @@ FromJ(T, j) ==
             ELSE IF Len(s) = 2 * NBytes(n) /\ (\A i \in 1..Len(s) : s[i] < 97) /\ (\A i \in (n + 1)..(4 * Len(s)) : HexBit(s, i) = 0)
                  THEN Ok(<<"bits", [i \in 1..n |-> HexBit(s, i)]>>)
                  ELSE DC                                                                \* other lengths / lower case / set padding bits: not addressed
-         ELSE IF j[1] = "int" THEN DC                                                    \* [BI bitset] "can decode from integers": bit order not given
+         ELSE IF IsIntJ(j) THEN DC                                                       \* [BI bitset] "can decode from integers": bit order not given
          ELSE Err
     [] T[1] = "secs" ->
          IF j[1] = "int" THEN Ok(<<"i", j[2]>>)
-         ELSE IF j[1] = "bool" \/ (j[1] = "str" /\ LooksNumeric(j[2])) THEN DC
+         ELSE IF j[1] \in {"bool", "wide", "dec"} \/ (j[1] = "str" /\ LooksNumeric(j[2])) THEN DC
          ELSE Err
 
 (************************* bounded value universes *************************)
@@ -237,12 +307,20 @@ RECURSIVE ProdSeq(_)
 ProdSeq(Ss) == IF Ss = <<>> THEN {<<>>} ELSE { <<h>> \o t : h \in Ss[1], t \in ProdSeq(Tail(Ss)) }
 RECURSIVE SeqsUpTo(_, _)
 SeqsUpTo(S, n) == IF n = 0 THEN {<<>>} ELSE LET P == SeqsUpTo(S, n - 1) IN P \cup { Append(s, x) : s \in {p \in P : Len(p) = n - 1}, x \in S }
+\* integers of a kind: the legacy kinds int / uint8_t (used all over the family) range over U.ints; the other kinds over their
+\* own boundary values (U.edge = "all": smallest, -1, 0, largest, and for uint64_t also INT64_MAX and INT64_MAX + 1;
+\* U.edge = "one": the largest value only - seeds)
+KindInts(kind, U) ==
+  IF kind \in {"i32", "u8"} THEN { JInt(n) : n \in {m \in U.ints : InRange(kind, JInt(m))} }
+  ELSE IF U.edge = "one" THEN { IF kind = "u64" THEN KMax("i64") ELSE KMax(kind) }      \* (a seed every format can carry: BSON has no unsigned 64 bit integer)
+  ELSE { j \in {KMin(kind), JInt(-1), JInt(0), KMax(kind)} \cup (IF kind = "u64" THEN {KMax("i64"), KAbove("i64")} ELSE {}) : InRange(kind, j) }
 RECURSIVE Vals(_, _)
 \* a variant value round-trips only if no earlier alternative claims its image ([GEN A8]: "types that
 \* are more constrained should appear to the left"): such values are not in the universe
 Canonical(Ts, k, v) == \A h \in 1..(k - 1) : ~Is(Ts[h], ToJ(Ts[k], v))
 Vals(T, U) ==
-  CASE T[1] = "int" -> { <<"i", n>> : n \in {m \in U.ints : InRange(T[2], m)} }
+  CASE T[1] = "int" -> { IntV(j) : j \in KindInts(T[2], U) }
+    [] T[1] = "flt" -> { <<"f", x[1], x[2]>> : x \in {y \in U.flts : T[2] = "f64" \/ FloatExact(y[1], y[2])} }
     [] T[1] = "bool" -> { <<"b", x>> : x \in U.bools }
     [] T[1] = "str" -> { <<"s", s>> : s \in U.strs }
     [] T[1] = "vec" -> { <<"seq", s>> : s \in SeqsUpTo(Vals(T[2], U), U.maxlen) }
